@@ -3,17 +3,17 @@ REG = dict(   # rename to REG once the findings below are triaged (fixed in /rep
     engine='E1-enum',
     technique='bounded-exhaustive enumeration of fully annotated programs of a typed grammar and of every single-point mutation of each (deviation bound 1, 2 for small programs), real `check` then real interpreter',
     text=("Base programs: fixed prefix (user enum Color, user struct Pt) + one function f with <=2 parameters over {Int, String, Bool, List<Int>, "
-          "Option<Int>, Color, Pt} whose body is one of 81 typed templates (arithmetic/comparison/equality/logic/concat operators, String/List/Option methods, "
+          "Option<Int>, Color, Pt} whose body is one of 84 typed templates (arithmetic/comparison/equality/logic/concat operators, String/List/Option methods, "
           "match on Option/enum incl. wildcard, field access, struct and list literals, if, let with and without annotation, for loop with assignment, explicit early `return` (in an if, a match arm, a for and a while body, bare in a Unit function, and inside annotated closures bound by let or passed to map/filter), closures "
           "passed to map/filter, calls to a second user function, to built-ins and to constructors) + a main part calling f with two well-typed literal argument "
           "vectors. Depth 2 = one slot of a template expanded by every expression template of the slot's type. "
           "Mutants = EVERY single-point edit of each base program: each subexpression replaced by each of 19 literal alternatives (every grammar type, wrong-payload "
           "Option/List, empty list, tuple, closure, constructor, Float, Unit, throw) and by every name in scope, an unbound name and the function names; operator, "
           "callee, method name (17), field name, struct field/type name, pattern (11) and every annotation (10) replaced; an argument / parameter / struct field / "
-          "closure parameter dropped or added; a match arm or an else dropped; a returned value dropped or added; binders renamed. "
+          "closure parameter dropped or added; a match arm or an else dropped; a returned value dropped or added; binders renamed. Plus, for every binder whose scope ends before the function body does (for variable, let inside an if/else/match-arm/for/while block, match payload, closure parameter, parameter of the other function), a reference to the bound name in a later statement of the function (variable referenced out of scope). "
           "quick: depth 1 (canonical parameter fill) with all edits + depth 2 for one outer context per (inner template, role of the slot) with all edits inside "
           "the expanded slot (11-literal alphabet): ~46k programs. thorough: depth 1 with every parameter/literal fill and depth 2 for every outer context, all "
-          "edits (~395k), plus every PAIR of disjoint edits (11-literal alphabet, leaves only) of the 81 depth-1 programs (~393k): deviation bound 2. "
+          "edits (~395k), plus every PAIR of disjoint edits (11-literal alphabet, leaves only) of the 84 depth-1 programs (~393k): deviation bound 2. "
           "Each program goes through the code path of `garden check`; programs with no error and no type-related warning are run (tick limit 50000). "
           "Oracle: the run does not end in an exception whose message matches one of the type-related templates of src/eval.rs "
           "(wrong type, arity, unbound variable, unknown method/field/type, non-exhaustive or ill-formed match). Exhaustive within these bounds; "
